@@ -48,9 +48,9 @@ def sh(cmd, cwd=None, timeout=None, env=None):
     return p.returncode, p.stdout, p.stderr, time.time() - t0
 
 
-def run_verus(image_path, workdir, seed=None, rlimit=None, threads=None):
+def run_verus(image_path, workdir, seed=None, threads=None):
     cmd = ['verus', os.path.basename(image_path), '--triggers-mode', 'silent', '--output-json', '--time',
-           '--error-format=json', '--multiple-errors', '6', '--no-report-long-running', '-V', 'spinoff-all', '--rlimit', '20']
+           '--error-format=json', '--multiple-errors', '6', '--no-report-long-running', '-V', 'spinoff-all', '--rlimit', '50']
     if seed is not None:
         cmd += ['--smt-option', 'smt.random_seed=%d' % seed]
     if threads:
@@ -297,9 +297,9 @@ def load_known_findings():
     return res
 
 
-def prepare(workdir, canary=False):
+def prepare(workdir, canary=False, skip_body=()):
     os.makedirs(workdir, exist_ok=True)
-    image, maps = gen.build_image(os.path.join(REPO, 'src'), canary=canary)
+    image, maps = gen.build_image(os.path.join(REPO, 'src'), canary=canary, skip_body=skip_body)
     name = 'canary' if canary else 'proof'
     d = os.path.join(workdir, name)
     os.makedirs(d, exist_ok=True)
@@ -352,15 +352,15 @@ def decide(props, a, seed, workdir, t0):
     # ---- 2. Verus (proof image and canary image in parallel; thorough: extra seeds) -----------------
     jobs = {}
     with cf.ThreadPoolExecutor(max_workers=6) as ex:
-        jobs['proof'] = ex.submit(run_verus, ppath, os.path.dirname(ppath), None, None, 8)
+        jobs['proof'] = ex.submit(run_verus, ppath, os.path.dirname(ppath), None, 8)
         if not a.no_canary:
-            jobs['canary'] = ex.submit(run_verus, cpath, os.path.dirname(cpath), None, None, 6)
+            jobs['canary'] = ex.submit(run_verus, cpath, os.path.dirname(cpath), None, 6)
         if a.tier == 'thorough':
             for k in range(3):
                 d = os.path.join(workdir, 'seed%d' % k)
                 os.makedirs(d, exist_ok=True)
                 shutil.copy(ppath, os.path.join(d, 'image.rs'))
-                jobs['seed%d' % k] = ex.submit(run_verus, os.path.join(d, 'image.rs'), d, seed * 7 + 11 + k, None, 4)
+                jobs['seed%d' % k] = ex.submit(run_verus, os.path.join(d, 'image.rs'), d, seed * 7 + 11 + k, 4)
         kani_future = None
         if not a.no_kani:
             hs = kani_run.harnesses_for(props, a.tier)
@@ -371,6 +371,30 @@ def decide(props, a, seed, workdir, t0):
         seeds = [jobs[k].result() for k in sorted(jobs) if k.startswith('seed')]
         kr = kani_future.result() if kani_future else {'harnesses': [], 'build_error': None, 'wall': 0}
     fails = classify(vr, maps, image_lines, lookup)
+    # Degrade instead of giving up: if the front end rejects spliced *body* annotations of a function (a local was
+    # renamed, a statement moved), drop that function's body annotations and verify again.  Failures in such a
+    # function are then only reported with a concrete witness.
+    skip_body = set()
+    for _round in range(3):
+        fe = [f for f in fails if f['kind'] == 'frontend']
+        if not fe or (vr['json'] and vr['json'].get('verification-results', {}).get('verified')):
+            break
+        new_skip = set()
+        for f in fe:
+            tagged = [ln for ln in f['lines'] if ln - 1 < len(image_lines) and re.search(r'//\s*@(vf|L\d+)\s*$', image_lines[ln - 1])]
+            if tagged and f['fn'] and f['fn'] in maps['contracts'] and f['fn'] not in skip_body:
+                # only body annotations can be dropped; a contract line that no longer type-checks stays inconclusive
+                rng = [r for r in maps['fn_ranges'] if r[0] <= tagged[0] <= r[1]]
+                if rng and tagged[0] > min(r[3] for r in rng):
+                    new_skip.add(f['fn'])
+        if not new_skip:
+            break
+        skip_body |= new_skip
+        ppath, image, maps = prepare(workdir, canary=False, skip_body=skip_body)
+        lookup = build_fnkey_lookup(image, maps)
+        image_lines = image.split('\n')
+        vr = run_verus(ppath, os.path.dirname(ppath), None, 8)
+        fails = classify(vr, maps, image_lines, lookup)
     frame_files, frame_hits = frame_scan(REPO)
     if os.environ.get('VF_DEV'):
         for f in fails:
@@ -479,6 +503,10 @@ def decide_one(p, a, seed, t0, vr, cr, seeds, kr, fails, maps, image, lookup, co
             role = role_of(p, default_safety(f['fn'], contracts))
         if role is None:
             continue
+        if role == 'primary' and f['fn'] in maps.get('lost_anchors', {}):
+            # the proof of this function lost an anchor: a failure here is undecided until a concrete witness is found
+            role = 'secondary'
+            f['degraded'] = maps['lost_anchors'][f['fn']]
         if f['kind'] in ('rlimit', 'frontend'):
             inconclusive.append(f)
         elif role == 'primary':
